@@ -396,6 +396,15 @@ static void do_rw (int writing)
 		printf (" dig=%016llx tail=%c guard=%d", (unsigned long long) digest_items (t, buf, got), alloc == got ? '-' : allz ? 'z' : allu ? 'u' : 'm',
 			guard_ok (buf, alloc * tsize (t))) ;
 		if (refok >= 0) printf (" refok=%d", refok) ;
+		if ((t == 'd' || t == 'f') && ch <= 16)
+		{	/* per channel maximum magnitude of what was delivered (C18 oracle) */
+			printf (" absmax=") ;
+			for (int c = 0 ; c < ch ; c++)
+			{	double m = 0.0 ;
+				for (long long k = c ; k < got ; k += ch) { double v = t == 'd' ? fabs (((double *) buf) [k]) : fabs ((double) ((float *) buf) [k]) ; if (v > m) m = v ; }
+				uint64_t u ; memcpy (&u, &m, 8) ; printf ("%s%llx", c ? "," : "", (unsigned long long) u) ;
+				} ;
+			} ;
 		if (got <= 24) { printf (" vals=") ; for (long long k = 0 ; k < got ; k++) { if (k) printf (",") ; print_item (t, buf, k) ; } }
 		}
 	check_invariants (h) ;
@@ -565,6 +574,21 @@ int main (int argc, char **argv)
 		else if (! strcmp (op, "cmd")) do_cmd () ;
 		else if (! strcmp (op, "str")) do_str () ;
 		else if (! strcmp (op, "chunk")) do_chunk () ;
+		else if (! strcmp (op, "peak"))
+		{	/* stored PEAK data of the handle: per channel value (as double bits) and position */
+			int h = tokll (1) ;
+			if (! handles [h]) { printf ("%d peak nohandle=1\n", lineno) ; continue ; }
+			SF_PRIVATE *p = P (h) ;
+			printf ("%d peak have=%d", lineno, p->peak_info != NULL) ;
+			if (p->peak_info)
+			{	printf (" peaks=") ;
+				for (int c = 0 ; c < p->sf.channels ; c++)
+				{	double v = p->peak_info->peaks [c].value ; uint64_t u ; memcpy (&u, &v, 8) ;
+					printf ("%s%llx@%lld", c ? "," : "", (unsigned long long) u, (long long) p->peak_info->peaks [c].position) ;
+					} ;
+				} ;
+			printf ("\n") ;
+			}
 		else if (! strcmp (op, "state")) { int h = tokll (1) ; if (handles [h]) printf ("%d state dig=%016llx\n", lineno, (unsigned long long) state_digest (h)) ; else printf ("%d state nohandle=1\n", lineno) ; }
 		else if (! strcmp (op, "err"))
 		{	SNDFILE *f = toks [1][0] == '-' ? NULL : handles [tokll (1)] ; const char *e = sf_strerror (f) ;
